@@ -1270,7 +1270,26 @@ struct array : static_array<T, D, Alloc> {
 	friend BOOST_MULTI_HD constexpr auto move(array& self) -> decltype(auto) { return std::move(self); }
 	friend BOOST_MULTI_HD constexpr auto move(array&& self) -> decltype(auto) { return std::move(self); }
 
-	array(array&& other, typename array::allocator_type const& alloc) noexcept : static_array<T, D, Alloc>{std::move(other), alloc} {
+	array(array&& other, typename array::allocator_type const& alloc) noexcept(multi::allocator_traits<typename array::allocator_type>::is_always_equal::value)
+	: static_array<T, D, Alloc>(typename array::extensions_type{}, alloc) {
+		if constexpr(!multi::allocator_traits<typename array::allocator_type>::is_always_equal::value) {
+			if(this->alloc() != other.alloc()) {  // a block cannot change allocators: move the elements into storage of the given allocator
+				this->base_ = array::array_alloc::allocate(static_cast<typename multi::allocator_traits<typename array::allocator_type>::size_type>(other.num_elements()));
+				this->layout_mutable() = other.layout();
+				try {
+					array::array_alloc::uninitialized_move_n(other.data_elements(), other.num_elements(), this->data_elements());
+				} catch(...) {
+					this->deallocate();
+					this->layout_mutable() = typename array::layout_type(typename array::extensions_type{});
+					throw;
+				}
+				other.clear();
+				assert(this->stride() != 0);
+				return;
+			}
+		}
+		this->base_ = std::exchange(other.base_, nullptr);
+		this->layout_mutable() = std::exchange(other.layout_mutable(), typename array::layout_type(typename array::extensions_type{}));
 		assert(this->stride() != 0);
 	}
 	array(array&& other) noexcept : array{std::move(other), other.get_allocator()} {
